@@ -9,7 +9,7 @@
      CB <hashes> <bufsz> <dghex> <sz> <comb> <lim|-> <script>
      VR <hashes> <dghex> <sz> <comb> <script> <ops>          ops: r<k> | v , comma separated
      ST <hashes> <kind> <n> { <namehex> <mthex> <dghex> <sz> <comb> <script> }*n
-        kind: mem | lim<limit> | oci | olim<limit> | file *)
+        kind: mem | lim<limit> | oci | olim<limit> | file ; for file the name field is <namehex>:<resolved path hex> *)
 let fnv (s : n list) : int =
   List.fold_left (fun h c -> ((h lxor (int_of_n c)) * 16777619) land 0xFFFFFFFF) 2166136261 s
 let djb (s : n list) : int =
@@ -49,6 +49,7 @@ let digest_str s = Printf.sprintf "%d:%d" (List.length s) (fnv s)
 let fuel_of evs = S (S (S (ev_weight evs)))
 let base_of evs lim = { b_evs = evs; b_lim = (if lim = "-" then None else Some (z_of_int (int_of_string lim))) }
 let fixed = true
+let cur_name_path : (n list * n list) ref = ref ([], [])
 let total evs = List.length (stream evs)
 
 let () =
@@ -97,7 +98,11 @@ let () =
         match rest with
         | name :: mt :: dg :: sz :: comb :: sc :: rest' ->
           let d = { d_mt = str_of_hex mt; d_dg = str_of_hex dg; d_sz = z_of_int (int_of_string sz) } in
-          Buffer.add_string buf (step (str_of_hex name) d (comb = "1") (parse_script sc));
+          let (nm, pth) = match String.index_opt name ':' with
+            | Some i -> (str_of_hex (String.sub name 0 i), str_of_hex (String.sub name (i + 1) (String.length name - i - 1)))
+            | None -> (str_of_hex name, str_of_hex name) in
+          cur_name_path := (nm, pth);
+          Buffer.add_string buf (step nm d (comb = "1") (parse_script sc));
           Buffer.add_string buf " ";
           pushes (i - 1) rest' step
         | _ -> failwith "bad ST case" in
@@ -131,7 +136,8 @@ let () =
       end else if kind = "file" then begin
         let st = ref { f_files = []; f_names = []; f_d2p = []; f_fb = [] } in
         pushes n rest (fun name d comb evs ->
-          let (e, st') = file_push h comb fixed (fuel_of evs) !st name d evs in
+          let (name, path) = !cur_name_path in
+          let (e, st') = file_push h comb fixed (fuel_of evs) !st name path d evs in
           st := st';
           let x = file_exists !st name d in
           let f = fetch_obs (file_fetch !st name d) d.d_dg d.d_sz in
